@@ -11,6 +11,173 @@ def _c12_case(c):
     return {"raw": c}
 
 
+# ---------------------------------------------------------------------------
+# A sample of the correspondence cases is re-evaluated INSIDE Coq with vm_compute and compared
+# with what the extracted OCaml runner printed (model.txt): cross-checks the extraction and the
+# OCaml driver against the Gallina definitions the theorems are about (not the implementation).
+_VM_PRELUDE = """From Coq Require Import List NArith Bool.
+Import ListNotations.
+From Oras Require Import Base.Prelude Model.TarRoundTrip.
+Open Scope N_scope.
+Definition vm_cls (r : res fs) : nat :=
+  match r with
+  | Ok _ => 0 | Err XOutside => 1 | Err XDigest => 2 | Err XAbsLink => 3 | Err XWriteThrough => 3 | Err _ => 4
+  end%nat.
+Definition vm_hyp (t : tree) : bool := is_dir t && wf_treeb t && modes_okb t && benign_tree t.
+(* the listing printed by the runner: every listed path has the listed node, nothing else is bound *)
+Definition vm_listing (r : res fs) (l : list (path * node)) : bool :=
+  match r with
+  | Ok f =>
+      forallb (fun pn => match fs_lookup f (fst pn), snd pn with
+                         | Some (NFile c m), NFile c' m' => str_eqb c c' && (m =? m')
+                         | Some (NDir m), NDir m' => m =? m'
+                         | Some (NLink g), NLink g' => str_eqb g g'
+                         | _, _ => false
+                         end) l &&
+      forallb (fun qn => existsb (fun pn => path_eqb (fst qn) (fst pn)) l) f
+  | Err _ => false
+  end.
+"""
+
+
+def _vm_str(h):
+    if h == "-" or h == "":
+        return "(@nil N)"
+    return "[" + "; ".join(str(x) for x in bytes.fromhex(h)) + "]"
+
+
+def _vm_path(tok):
+    if tok in (".", "", "-"):
+        return "(@nil (list N))"
+    return "[" + "; ".join(_vm_str(c) for c in tok.split("/") if c != "") + "]"
+
+
+def _vm_tree(toks, i):
+    k = toks[i]
+    if k == "F":
+        return "(File %s %s %s)" % (_vm_str(toks[i + 3]), toks[i + 1], toks[i + 2]), i + 4
+    if k == "L":
+        return "(Link %s %s)" % (_vm_str(toks[i + 2]), toks[i + 1]), i + 3
+    if k == "D":
+        n = int(toks[i + 3])
+        j = i + 4
+        kids = []
+        for _ in range(n):
+            nm = toks[j]
+            sub, j = _vm_tree(toks, j + 1)
+            kids.append("(%s, %s)" % (_vm_str(nm), sub))
+        ch = "(@nil (list N * tree))" if not kids else "[" + "; ".join(kids) + "]"
+        return "(Dir %s %s %s)" % (toks[i + 1], toks[i + 2], ch), j
+    raise ValueError("tree token " + k)
+
+
+def _vm_bool(t):
+    return "true" if t == "1" else "false"
+
+
+def _vm_pairs(tok):
+    if tok in ("-", ""):
+        return "(@nil (list N * nat))"
+    out = []
+    for x in tok.split(","):
+        nm, d = x.split(":")
+        out.append("(%s, %s%%nat)" % (_vm_str(nm), d))
+    return "[" + "; ".join(out) + "]"
+
+
+def _vm_goal(case, out):
+    toks = [t for t in case.split(" ") if t and not t.startswith("#")]
+    k = toks[0]
+    if k == "T" and out.startswith("ENT "):
+        t, _ = _vm_tree(toks, 3)
+        ents = []
+        for e in out[4:].split(","):
+            nm, typ, mode, mt, payload, _ids = e.split(":")
+            kind = {"f": "(EReg %s)" % _vm_str(payload), "d": "EDir", "l": "(ELnk %s)" % _vm_str(payload)}[typ]
+            ents.append("mkEntry %s %s %d %s" % (_vm_path(nm), kind, int(mode, 8), mt))
+        return "tar_entries %s %s %s\n  = [%s]" % (_vm_path(toks[2]), _vm_bool(toks[1]), t, ";\n     ".join(ents))
+    if k == "X":
+        t, _ = _vm_tree(toks, 4)
+        call = "extract %s %s %s (tar_entries %s false %s)" % (_vm_path(toks[3]), toks[1], _vm_bool(toks[2]), _vm_path(toks[3]), t)
+        if out.startswith("UNJUDGED"):
+            return "vm_cls (%s) = 3%%nat" % call
+        hyp, _, rest = out.partition(" ")
+        hb = "true" if hyp == "B1" else "false"
+        if rest.startswith("OK "):
+            items = []
+            for it in rest[3:].split(","):
+                pth, typ, mode, payload = it.split(":")
+                node = {"f": lambda: "NFile %s %d" % (_vm_str(payload), int(mode, 8)),
+                        "d": lambda: "NDir %d" % int(mode, 8),
+                        "l": lambda: "NLink %s" % _vm_str(payload)}[typ]()
+                items.append("(%s, %s)" % (_vm_path(pth), node))
+            return "(vm_hyp %s, vm_listing (%s)\n   [%s]) = (%s, true)" % (t, call, ";\n    ".join(items), hb)
+        cls = {"ERR outside": 1, "ERR digest": 2, "ERR reject": 4}[rest]
+        return "(vm_hyp %s, vm_cls (%s)) = (%s, %d%%nat)" % (t, call, hb, cls)
+    if k == "P" and out == "EQ":
+        ta, j = _vm_tree(toks, 3)
+        tb, _ = _vm_tree(toks, j + 1)
+        return "tar_entries %s %s %s\n  = tar_entries %s %s %s" % (_vm_path(toks[2]), _vm_bool(toks[1]), ta, _vm_path(toks[2]), _vm_bool(toks[1]), tb)
+    if k == "M" and out.startswith("NAMES"):
+        names = [x for x in out[6:].split(",") if x]
+        nm = "[" + "; ".join(_vm_str(x.split(":")[0]) for x in names) + "]" if names else "(@nil (list N))"
+        ids = "[" + "; ".join("Some %s%%nat" % x.split(":")[1] for x in names) + "]" if names else "(@nil (option nat))"
+        return ("let s := copy_into %s %s %s %s in\n  (map (name_lookup (s_names s)) %s, length (s_names s)) = (%s, %d%%nat)"
+                % (_vm_bool(toks[1]), _vm_bool(toks[2]), _vm_pairs(toks[3]), _vm_pairs(toks[4]), nm, ids, len(names)))
+    return None
+
+
+def _c12_vm_sample(d, tier, coq, build):
+    import os, subprocess, collections
+    quota = {"T": 80, "X": 120, "P": 30, "M": 60} if tier == "thorough" else {"T": 8, "X": 14, "P": 4, "M": 6}
+    outs = {}
+    with open(os.path.join(d, "model.txt")) as f:
+        for l in f:
+            i, _, o = l.rstrip("\n").partition(" ")
+            outs[i] = o
+    total, got, stride = collections.Counter(), collections.Counter(), collections.Counter()
+
+    def eligible(c):
+        k = c.split(" ", 1)[0]
+        return k if k in quota and len(c) < 9000 else None
+    with open(os.path.join(d, "cases.txt")) as f:
+        for l in f:
+            k = eligible(l.rstrip("\n").partition(" ")[2])
+            if k:
+                total[k] += 1
+    goals = []
+    with open(os.path.join(d, "cases.txt")) as f:
+        for l in f:
+            i, _, c = l.rstrip("\n").partition(" ")
+            k = eligible(c)
+            if not k or got[k] >= quota[k] or i not in outs:
+                continue
+            stride[k] += 1
+            if (stride[k] - 1) % max(1, total[k] // quota[k]) != 0:
+                continue
+            g = _vm_goal(c, outs[i])
+            if g:
+                got[k] += 1
+                goals.append((i, g))
+    vdir = os.path.join(build, "vm")
+    os.makedirs(vdir, exist_ok=True)
+    vf = os.path.join(vdir, "C12_cases.v")
+    with open(vf, "w") as f:
+        f.write(_VM_PRELUDE)
+        for i, g in goals:
+            f.write("\n(* %s *)\nGoal %s.\nProof. vm_compute. reflexivity. Qed.\n" % (i, g))
+    p = subprocess.run(["coqc", "-R", coq, "Oras", "-w", "-notation-overridden", vf], cwd=vdir, timeout=1500,
+                       stdout=subprocess.PIPE, stderr=subprocess.STDOUT, text=True)
+    with open(os.path.join(d, "vm_sample.txt"), "w") as f:
+        f.write("%d goals %s rc=%d\n%s" % (len(goals), dict(got), p.returncode, p.stdout[-3000:]))
+    if p.returncode != 0:
+        return ["vm_compute re-evaluation of %d sampled cases inside Coq disagrees with the extracted runner (or does not type-check): %s"
+                % (len(goals), p.stdout[-1200:])]
+    if len(goals) < sum(quota.values()) // 3:
+        return ["vm_compute sample too small: %d goals" % len(goals)]
+    return []
+
+
 CONFIG = {
     "properties_file": "Properties/C12.v",
     "proof_files": ["Base/Prelude.v", "Proofs/TarRoundTrip.v", "Proofs/TarWalkOrder.v", "Proofs/TarListingOrder.v", "Proofs/TarRootMode.v"],
@@ -19,6 +186,7 @@ CONFIG = {
     "ml_main": "c12_main.ml",
     "harness": "c12",
     "case_to_replay": _c12_case,
+    "post_model": _c12_vm_sample,
     "timeout_quick": 600,
     "timeout_thorough": 3000,
     "assumptions": [
